@@ -54,6 +54,15 @@ fn prefix_free(v: &[AzksElement]) -> bool {
     true
 }
 
+/// as try_proof, for proofs that must not be accepted whatever the end hash is
+async fn try_proof_expect<TC: Configuration>(cx: &mut Cx, what: &str, h1: [u8; 32], end_epoch: u64, unchanged: Vec<AzksElement>, inserted: Vec<AzksElement>, may_accept: bool) {
+    let a0 = *cx.stats.get("accepted").unwrap_or(&0);
+    try_proof::<TC>(cx, what, h1, end_epoch, unchanged, inserted).await;
+    let a1 = *cx.stats.get("accepted").unwrap_or(&0);
+    if a1 > a0 && !may_accept {
+        cx.fails.push(format!("accepted append-only proof ({}) although its start tree cannot be the committed one [cfg {}]", what, cfg_name::<TC>()));
+    }
+}
 async fn try_proof<TC: Configuration>(cx: &mut Cx, what: &str, h1: [u8; 32], end_epoch: u64, unchanged: Vec<AzksElement>, inserted: Vec<AzksElement>) {
     let cfg = cfg_name::<TC>();
     // the end hash the server would publish: the root of the auditor's own rebuild
@@ -165,6 +174,34 @@ async fn one<TC: Configuration>(cx: &mut Cx, r: &mut Rng) {
     let mut un3 = unchanged.clone();
     un3.push(unchanged[0]);
     try_proof::<TC>(cx, "duplicated unchanged element", h1, 2, un3, vec![fresh(r, &[], 0xE1)]).await;
+    // (g) an unchanged interior node whose label carries stray bits beyond its length: the auditor's
+    //     prefix-free check canonicalises, the rebuild does not; the start tree cannot hash to h1
+    if let Some(pos) = unchanged.iter().position(|e| e.label.label_len < 250 && e.label.label_len > 0) {
+        for bit in [unchanged[pos].label.label_len as usize, 255usize] {
+            let mut un5 = unchanged.clone();
+            un5[pos].label.label_val[bit / 8] |= 0x80u8 >> (bit % 8);
+            try_proof_expect::<TC>(cx, "unchanged label with a stray bit", h1, 2, un5, vec![fresh(r, &[], 0xE7)], false).await;
+        }
+    }
+    // (h) leaves sharing only a short prefix with an unchanged node listed first, followed by a run of
+    //     zero bits up to the first word boundary (word-at-a-time label arithmetic)
+    if let Some(pos) = unchanged.iter().position(|e| e.label.label_len >= 2 && e.label.label_len < 256) {
+        let ub = bits_of(&unchanged[pos].label);
+        if let Some(k) = (1..ub.len().min(63)).find(|k| ub[*k]) {
+            let mut un6 = unchanged.clone();
+            un6.swap(0, pos);
+            let mut pre = ub[..k].to_vec();
+            while pre.len() < 64 {
+                pre.push(false);
+            }
+            let mut pa = pre.clone();
+            pa.push(false);
+            let mut pb = pre.clone();
+            pb.push(true);
+            try_proof::<TC>(cx, "zero-run leaves beside an unchanged node", h1, 2, un6.clone(), vec![fresh(r, &pa, 0xE8), fresh(r, &pb, 0xE9)]).await;
+            try_proof::<TC>(cx, "zero-run leaves beside an unchanged node", h1, 2, un6, vec![fresh(r, &pre, 0xEA), fresh(r, &pre, 0xEB), fresh(r, &[], 0xEC)]).await;
+        }
+    }
     // (f) an old leaf replaced: unchanged without one leaf-frontier element, inserted re-adds its label with another value
     if let Some(pos) = unchanged.iter().position(|e| e.label.label_len == 256) {
         let mut un4 = unchanged.clone();
